@@ -36,7 +36,9 @@ UNIT = {
         {"file": "-", "kind": "inline", "name": "size-tables", "text": SPEC},
         {"file": F_CI, "kind": "impl", "name": "TlsCipherSuite", "methods": {
             "from_id": {"skip": True}, "from_name": {"skip": True},       # registry lookups: Kani (fd_from_id, cipher_by_name stand-in)
-            "enc_key_size": {"contract": "        ensures r as int == self.enc_size as int / 8,"},
+            "enc_key_size": {"contract": "        ensures r as int == self.enc_size as int / 8,",
+                             # solver hint only (shift form of the division): keeps a `>> 3` rewrite of the body from raising a false alarm
+                             "splices": [{"at_start": True, "text": "        proof { let x = self.enc_size; assert(x >> 3 == x / 8) by (bit_vector); }"}]},
             "enc_block_size": {"contract": "        ensures r as int == block_size_of(self.enc),"},
             "mac_length": {"contract": "        ensures r as int == mac_length_of(self.mac),"},
         }},
